@@ -34,6 +34,8 @@ NEED = {   # vacuity guards: the run is not a verdict unless these step kinds oc
     "C09": ["resvMade"], "C10": ["appStateChanges", "stateTimerFired"], "C11": ["schedAlloc"], "C16": ["reloadOk", "reloadRejected"],
 }
 
+# properties decided by their own pipeline module (vlib/<module>.py: main(prop, tier, seed, argv))
+OTHER = {"C18": "resarith", "C19": "sorting", "C20": "events", "C15": "confvalid", "C17": "placement"}
 CRASH_OWNERS = {"C08", "C13"}   # properties whose statement covers "the core process dies"
 LEVEL_TEXT = {}
 
@@ -45,9 +47,13 @@ def main(argv):
     seed = C.seed()
     t0 = time.time()
     try:
-        if "--replay" in argv:
+        if "--replay" in argv and prop not in OTHER:
             from . import replay
             replay.main(prop, argv[argv.index("--replay") + 1])
+            return
+        if prop in OTHER:
+            import importlib
+            importlib.import_module("vlib." + OTHER[prop]).main(prop, tier, seed, argv)
             return
         C.build()
         kf_all = C.known_findings()
